@@ -111,6 +111,10 @@ theorem collect_terminates (cfg : Cfg) (hc : cfg.dedupDirs = true) (ws : Ws) :
       | some decls =>
         have hlt := unread_cons_lt ws p seen decls hl hp
         simp only
+        by_cases hgb : decls.any isGarbage = true
+        · simp only [hgb, if_true]
+          exact ⟨[.syntaxErr p], p :: seen, rfl, unread_cons_le ws p seen⟩
+        simp only [hgb]
         cases hr : resolveFile cfg p decls with
         | none => exact ⟨[.fileErr p], p :: seen, rfl, unread_cons_le ws p seen⟩
         | some r =>
